@@ -43,7 +43,8 @@ def cases(tier, seed):
                     continue
                 out.append({"kind": "perm", "cls": f"perm:m{m}", "m": m, "n": n, "pi": list(pi), "seed": seed})
     idx = 0
-    for cls in ("gauss", "diag_dominant", "ties", "int", "scaled_small", "scaled_big", "pure_imag", "sparse_pattern", "layout"):
+    for cls in ("gauss", "diag_dominant", "ties", "int", "scaled_small", "scaled_big", "pure_imag", "sparse_pattern", "layout",
+                "herm_gram", "herm_indef_posdiag", "herm_generic", "herm_near_singular_leading_block", "real_symmetric", "hollow", "herm_hollow"):
         for rep in range(6 if tier == "quick" else 120):
             out.append({"kind": "random", "cls": "random:" + cls, "entry": cls, "idx": idx, "seed": seed,
                         "maxd": 8 if tier == "quick" else 20})
@@ -317,6 +318,32 @@ def _random(spec, ctx, R):
         A = gen.entries(rng, "sparse", m, n) + refq.diagq(1.0 + rng.random(min(m, n)), m, n)
     elif cls == "layout":
         A = gen.layout(refq.randq(rng, m, n), str(rng.choice(gen.LAYOUTS)))
+    elif cls in ("herm_gram", "herm_indef_posdiag", "herm_generic", "herm_near_singular_leading_block", "real_symmetric", "hollow", "herm_hollow"):
+        # square HERMITIAN inputs (Gram matrices, indefinite with a positive diagonal, generic, a leading 2x2 block that is nearly singular, real
+        # symmetric): symmetric structure does not excuse an elimination from its row search - the largest entry of a column need not be on
+        # the diagonal, and |multiplier| <= 1 / P A = L U must hold like for any other matrix
+        n = m = max(2, min(m, n) if min(m, n) >= 2 else int(rng.integers(2, spec["maxd"] + 1)))
+        B = refq.randq(rng, n, n)
+        if cls == "herm_gram":
+            A = refq.symmetrize(refq.matmul(refq.herm(B), B))
+        elif cls == "herm_generic":
+            A = refq.symmetrize(B + refq.herm(B))
+        elif cls in ("hollow", "herm_hollow"):       # exactly zero diagonal: every leading entry met without pivoting is zero or fill-in
+            c = refq.fa(B if cls == "hollow" else refq.symmetrize(B + refq.herm(B))).copy()
+            c[np.arange(n), np.arange(n)] = 0.0
+            A = refq.qa(c)
+        elif cls == "real_symmetric":
+            c = np.zeros((n, n, 4)); c[..., 0] = rng.standard_normal((n, n)); c[..., 0] = c[..., 0] + c[..., 0].T
+            A = refq.qa(c)
+        else:
+            A = refq.symmetrize(B + refq.herm(B))
+            c = refq.fa(A).copy()
+            c[np.arange(n), np.arange(n), 0] = 0.2 + rng.random(n)           # positive diagonal, large off-diagonal entries: indefinite
+            if cls == "herm_near_singular_leading_block":
+                q = c[0, 1] / max(float(np.linalg.norm(c[0, 1])), 1e-300)
+                c[0, 1] = q; c[1, 0] = q * np.array([1.0, -1.0, -1.0, -1.0])
+                c[0, 0, 0] = 1.0; c[1, 1, 0] = 1.0 + float(rng.choice([1e-11, 1e-6, 1e-3]))
+            A = refq.symmetrize(refq.qa(c))
     else:
         raise ValueError(cls)
     s = embed.svals(A)
